@@ -88,6 +88,8 @@ def compare(world: World, interp: Interp, post, raised, results=None):
         bad.append("user_arrays")
     if not world.initial_copy_untouched():
         bad.append("initial_copy")
+    if not world.saveload_ok:
+        bad.append("saveload_equal")
     algs = getattr(world.setup, "algorithms", {})
     if list(algs.keys()) != [e["name"] for e in post["reg"]]:
         bad.append("registry")
@@ -132,11 +134,11 @@ def act_tag(act):
     return n
 
 
-def make_check(kind, interp, cfgname, results=None):
+def make_check(kind, interp, cfgname, results=None, skip=frozenset()):
     def check(col, world, act, pre, posts, raised, path):
         best = None
         for i, post in enumerate(posts):
-            bad = compare(world, interp, post, raised, results)
+            bad = [b for b in compare(world, interp, post, raised, results) if b not in skip]
             kn = {c: known_clause(world, post, c) for c in bad}
             if bad and all(kn.values()):
                 for k in sorted(set(kn.values())):
@@ -144,7 +146,7 @@ def make_check(kind, interp, cfgname, results=None):
                                   {"config": cfgname, "path": path, "expected_post": posts, "mismatch": bad})
                 bad = []
             if not bad:
-                if len(post["hist"]) >= 2:
+                if len(post["hist"]) >= 2 or (len(path) >= 2 and any(e["ran"] for e in post["reg"])):
                     col.mark_nontrivial((cfgname, post["hist"], [e["name"] for e in post["reg"]], post["gen"]))
                 if len(path) >= 3:
                     col.sample({"config": cfgname, "behaviour": path, "abstract_post_state": post})
@@ -185,7 +187,8 @@ def init_state(c):
 
 
 def run_config(ctx, c, alphabet, run_names, *, results=None, factory=alg_factory, mpe_args=None,
-               runall=False, saveload=False, rollback=True, merge=True, seed_off=0, simulate=None):
+               runall=False, saveload=False, rollback=True, merge=True, seed_off=0, simulate=None,
+               skip=frozenset()):
     mod, cfg = ctx.model("Setup", c["name"], setup_constants(c, alphabet, run_names, rollback, runall, saveload),
                          invariants=SETUP_INVARIANTS, properties=SETUP_PROPERTIES,
                          action_constraints=["Emit"], view="View")
@@ -207,7 +210,7 @@ def run_config(ctx, c, alphabet, run_names, *, results=None, factory=alg_factory
         return world, raised
 
     cols = walk.walk_parallel(graph, init_state(c), make_world, apply,
-                              make_check(c["kind"], interp, c["name"], results),
+                              make_check(c["kind"], interp, c["name"], results, skip),
                               core.Collector, merge=merge)
     for col in cols:
         ctx.merge(col)
